@@ -305,7 +305,10 @@ Definition toy_token (k prev chash : bytes) : token := mkToken prev chash (k ++ 
    Correspondence interface.  A case fixes widths, key, tables, capacity, a pool of token fields and a
    pool of contents; operations refer to the pools by index.  Observations are flat lists of Z:
    tokens are reported as (index in the pool of the first token with the same signed bytes, index of the
-   content in the content pool or -1). *)
+   content in the content pool or -1).  Only the public surface is ordered the way the implementation
+   orders it (elements, serialisations); get_missing() is a set and is reported sorted; the waiting tokens
+   themselves are internal to the implementation and are reported as a sorted set, and only when the
+   harness could see them (c_waiting). *)
 Inductive op :=
 | OGather (i : nat) (c : option nat)   (* gather_token(from_database_tuple(pool[i], content c)) *)
 | OUnser (s : bytes).                  (* unserialize_public(s) *)
@@ -319,6 +322,7 @@ Record case := mkCase {
   c_contents : list bytes;
   c_depths : list Z;          (* maxdepth values probed by verify / get_root_path at the end *)
   c_trace : bool;             (* report the state after every operation (else only at the end) *)
+  c_waiting : bool;           (* the harness could read the waiting tokens: compare them (as a set) *)
   c_ops : list op
 }.
 
@@ -341,8 +345,29 @@ Definition enc_bool (b : bool) : list Z := [if b then 1 else 0].
 Definition exn_code (e : exn) : Z :=
   match e with StructError => 10 | KeyError => 11 | OutOfFuel => 12 | ValueError => 13 | _ => 19 end.
 
+(* canonical order for sets: insertion sort *)
+Fixpoint insert_by {A} (leb : A -> A -> bool) (x : A) (l : list A) : list A :=
+  match l with
+  | [] => [x]
+  | y :: tl => if leb x y then x :: l else y :: insert_by leb x tl
+  end.
+Definition sort_by {A} (leb : A -> A -> bool) (l : list A) : list A := fold_right (insert_by leb) [] l.
+Fixpoint bytes_leb (a b : bytes) : bool :=      (* Python's ordering of bytes objects *)
+  match a, b with
+  | [], _ => true
+  | _ :: _, [] => false
+  | x :: a', y :: b' => (x <? y) || ((x =? y) && bytes_leb a' b')
+  end.
+Definition pair_leb (a b : Z * Z) : bool :=
+  (fst a <? fst b) || ((fst a =? fst b) && (snd a <=? snd b)).
+
 Definition enc_state (tr : tree) : list Z :=
-  enc_list enc_tok (elements tr) ++ enc_list enc_tok (unchained tr).
+  enc_list enc_tok (elements tr)
+  ++ enc_list enc_bytes (sort_by bytes_leb (get_missing tr))
+  ++ (if c_waiting c then
+        enc_list (fun p : Z * Z => [fst p; snd p])
+                 (sort_by pair_leb (map (fun t => (tok_index t, content_index (t_content t))) (unchained tr)))
+      else []).
 
 Definition nth_tok (i : nat) : token := nth i (c_pool c) (mkToken [] [] [] None).
 
@@ -371,11 +396,10 @@ Fixpoint run_ops (tr : tree) (ops : list op) : tree * list Z :=
       (tr2, o1 ++ (if c_trace c then enc_state tr1 else []) ++ o2)
   end.
 
-(* final probes: get_missing; for every pool token and depth: verify, get_root_path;
+(* final probes: for every pool token and depth: verify, get_root_path;
    serialize_public(); serialize_public(up_to) per pool token; reload of the dump into a fresh tree *)
 Definition final_obs (tr : tree) : list Z :=
-  enc_list enc_bytes (get_missing tr)
-  ++ flat_map (fun p => flat_map (fun d =>
+  flat_map (fun p => flat_map (fun d =>
         enc_bool (tree_verify H V PK tr p d) ++ enc_list enc_tok (get_root_path H V PK tr p d))
         (c_depths c)) (c_pool c)
   ++ enc_bytes (serialize_public tr)
